@@ -879,6 +879,111 @@ def run_partD(case):
     return ev
 
 
+def run_partE(h):
+    """History and import-path cases (run in the main process, after the pooled parts).
+    E1  a subclass defined *after* a first by-name lookup is still reachable by its bare name: the short form denotes the
+        same configuration as the explicit form at every point of the history, not only for classes known at first use.
+    E2  a class whose parent package exposes a *different* object under the same name: the accepted class_path imports
+        to the very class that was named and checked, and instantiate_classes builds exactly that class."""
+    import types
+
+    from jsonargparse._util import import_object
+
+    class EBase:
+        def __init__(self, a: int = 1):
+            self.a = a
+
+    class ESub1(EBase):
+        def __init__(self, a: int = 1, s1: int = 10):
+            super().__init__(a)
+            self.s1 = s1
+
+    def publish(cls, name):
+        cls.__module__, cls.__qualname__, cls.__name__ = G.__name__, name, name
+        setattr(G, name, cls)
+
+    publish(EBase, "EBase")
+    publish(ESub1, "ESub1")
+    for style in ("same-parser", "new-parser"):
+        parser = ArgumentParser(exit_on_error=False)
+        parser.add_argument("--shape", type=EBase)
+        first = outcome(parser.parse_args, ["--shape=ESub1", "--shape.s1=3"])
+        key = K("E1:late-subclass-by-name", style)
+        if first[0] != "ok":
+            h.check(False, key + ":setup", f"bare name of an existing subclass rejected: {first[:2]}", None)
+            continue
+        for n in range(2):
+            name = f"ELate{n}{style[0]}"
+            def late_init(self, a: int = 1, late: int = 7):
+                self.a, self.late = a, late
+
+            late = type(name, (EBase,), {"__init__": late_init})
+            publish(late, name)
+            if style == "new-parser":
+                parser = ArgumentParser(exit_on_error=False)
+                parser.add_argument("--shape", type=EBase)
+            explicit = outcome(parser.parse_args, [f"--shape={G.__name__}.{name}", "--shape.late=9"])
+            short = outcome(parser.parse_args, [f"--shape={name}", "--shape.late=9"])
+            ok = explicit[0] == "ok" and short[0] == "ok" and short[1].as_dict() == explicit[1].as_dict()
+            h.check(ok, f"{key}:{n}", f"explicit form -> {explicit[0]} {explicit[1].as_dict() if explicit[0] == 'ok' else explicit[1:3]}; bare name -> {short[0]} {short[1].as_dict() if short[0] == 'ok' else short[1:3]}",
+                    {"history": ["--shape=ESub1", f"define {name}(EBase)", f"--shape={name}"]})
+            h.nontrivial(key + str(n))
+    # E2
+    for depth in (1, 2):
+        root = f"b14pkg{depth}"
+        mods = [root, root + ".v2", root + ".v2.codecs"][: depth + 1]
+        made = []
+        for m in mods:
+            mod = types.ModuleType(m)
+            mod.__path__ = []
+            sys.modules[m] = mod
+            made.append(mod)
+        for a, b in zip(made, made[1:]):
+            setattr(a, b.__name__.rsplit(".", 1)[1], b)
+
+        class Codec:
+            def __init__(self, threads: int = 1):
+                self.threads = threads
+
+        Codec.__module__, Codec.__qualname__ = root, "Codec"
+        made[0].Codec = Codec
+        for variant in ("other-class-above", "same-class-above", "nothing-above"):
+            class Fast(Codec):
+                def __init__(self, threads: int = 1, window: int = 5):
+                    super().__init__(threads)
+                    self.window = window
+
+            class Impostor(Codec):
+                def __init__(self, threads: int = 1, level: str = "x"):
+                    super().__init__(threads)
+                    self.level = level
+
+            Fast.__module__, Fast.__qualname__, Fast.__name__ = mods[-1], "Fast", "Fast"
+            Impostor.__module__, Impostor.__qualname__, Impostor.__name__ = root, "Fast", "Fast"
+            made[-1].Fast = Fast
+            if variant == "other-class-above":
+                made[0].Fast = Impostor
+            elif variant == "same-class-above":
+                made[0].Fast = Fast
+            elif hasattr(made[0], "Fast"):
+                del made[0].Fast
+            key = K("E2:import-path-round-trip", f"{variant}:depth{depth}")
+            parser = ArgumentParser(exit_on_error=False)
+            parser.add_argument("--codec", type=Codec)
+            res = outcome(parser.parse_args, [f"--codec={mods[-1]}.Fast", "--codec.window=8"])
+            if res[0] != "ok":
+                h.check(False, key + ":rejected", f"a valid class_path with a valid init_arg was rejected: {res[1:3]}", {"class_path": mods[-1] + ".Fast", "variant": variant})
+                continue
+            cp = res[1].codec.class_path
+            back = outcome(import_object, cp)
+            h.check(back[0] == "ok" and back[1] is Fast, key + ":class_path", f"accepted class_path {cp!r} imports to {back[1]!r}, the named class is {mods[-1]}.Fast",
+                    {"class_path": mods[-1] + ".Fast", "variant": variant})
+            init = outcome(parser.instantiate_classes, res[1])
+            ok = init[0] == "ok" and type(init[1].codec) is Fast and getattr(init[1].codec, "window", None) == 8
+            h.check(ok, key + ":instance", f"instantiate_classes -> {init[0]} {type(init[1].codec).__module__ + '.' + type(init[1].codec).__name__ if init[0] == 'ok' else init[1:3]}", {"variant": variant})
+            h.nontrivial(key)
+
+
 def worker(case):
     try:
         return {"A": run_partA, "B": run_partB, "C": run_partC, "D": run_partD}[case["part"]](case)
@@ -924,6 +1029,8 @@ def main():
             lab = "+".join(f"{s['ch']}[{s['cls'] or ''}({','.join(f'{k}={v}' for k, v in s['args'].items())}{';' + ','.join(s['kw']) if s['kw'] else ''})]" for s in steps)
             cases.append({"part": "B", "decl": "Base", "steps": steps, "id": G.short_key(f"B:Base:{lab}"), "tag": "random"})
     n = G.run_cases(h, cases, worker)
+    if not h.only:
+        run_partE(h)
     kinds = {"valid": 0, "invalid": 0, "accepted": 0, "rejected": 0}
     for sig in h.distinct:
         if isinstance(sig, tuple) and len(sig) > 1 and sig[1] in kinds:
